@@ -202,3 +202,172 @@ Proof.
     f_equal. f_equal. apply pa_template_sem. intros c Hc.
     apply (pa_lookup_place_base q hc g p c); [eapply nth_error_In; eassumption|assumption|assumption].
 Qed.
+
+(* ------------------------------------------------------------------ HAVING over hidden columns *)
+(* the HAVING condition as written refers to group columns and SELECT items only *)
+Fixpoint pa_hexp_src (e : pa_hexp) : Prop :=
+  match e with
+  | PaHCol (PaGroup _) | PaHCol (PaItem _) => True
+  | PaHCol _ => False
+  | PaHAgg _ | PaHLit _ => True
+  | PaHBin _ x y => pa_hexp_src x /\ pa_hexp_src y
+  end.
+Fixpoint pa_hpred_src (p : pa_hpred) : Prop :=
+  match p with
+  | PaHCmp _ x y => pa_hexp_src x /\ pa_hexp_src y
+  | PaHAnd p q | PaHOr p q => pa_hpred_src p /\ pa_hpred_src q
+  end.
+
+Lemma pa_lookup_hidden_row : forall q hc g m,
+  pa_lookup (PaHidden m) (pa_post_row q (pa_base_row q hc g))
+  = option_map (fun c => PaNum (pa_agg_val c (snd g))) (nth_error hc m).
+Proof.
+  intros q hc g m. unfold pa_post_row. rewrite pa_lookup_delete by reflexivity.
+  rewrite pa_lookup_app, pa_base_row_parts.
+  rewrite pa_lookup_app, pa_lookup_absent.
+  2:{ intros c' v Hin. apply pa_part_g_cols in Hin. destruct Hin as [j ->]. reflexivity. }
+  rewrite pa_lookup_app, pa_lookup_absent.
+  2:{ intros c' v Hin. apply pa_part_pl_cols in Hin. destruct Hin as [j ->]. reflexivity. }
+  rewrite pa_lookup_app, pa_lookup_absent.
+  2:{ intros c' v Hin. apply pa_place_cols_cols in Hin. destruct Hin as [j ->]. reflexivity. }
+  unfold pa_part_h. rewrite (pa_lookup_hidden_enum (fun c => PaNum (pa_agg_val c (snd g)))).
+  rewrite pa_ltb0, Nat.sub_0_r.
+  destruct (nth_error hc m); [reflexivity|]. simpl.
+  apply pa_lookup_absent. intros c' v Hin. apply in_flat_map in Hin. destruct Hin as [l [Hl Hin]].
+  apply pa_enum_in in Hl. destruct Hl as [i [p [_ E]]]. subst l.
+  destruct (pa_is_plain p); [destruct Hin|]. destruct Hin as [E|[]]. inversion E. reflexivity.
+Qed.
+
+Lemma pa_lookup_group_row : forall q hc g j,
+  pa_lookup (PaGroup j) (pa_post_row q (pa_base_row q hc g)) = nth_error (fst g) j.
+Proof.
+  intros q hc g j. unfold pa_post_row. rewrite pa_lookup_delete by reflexivity.
+  rewrite pa_lookup_app, pa_base_row_parts. rewrite pa_lookup_app. unfold pa_part_g.
+  rewrite pa_lookup_group_enum, pa_ltb0, Nat.sub_0_r.
+  destruct (nth_error (fst g) j) eqn:E; [reflexivity|].
+  rewrite pa_lookup_absent.
+  2:{ intros c' v Hin. repeat (apply in_app_or in Hin; destruct Hin as [Hin|Hin]).
+      - apply pa_part_pl_cols in Hin. destruct Hin as [k ->]. reflexivity.
+      - apply pa_place_cols_cols in Hin. destruct Hin as [k ->]. reflexivity.
+      - apply pa_part_h_cols in Hin. destruct Hin as [k ->]. reflexivity. }
+  apply pa_lookup_absent. intros c' v Hin. apply in_flat_map in Hin. destruct Hin as [l [Hl Hin]].
+  apply pa_enum_in in Hl. destruct Hl as [i [p [_ E']]]. subst l.
+  destruct (pa_is_plain p); [destruct Hin|]. destruct Hin as [E'|[]]. inversion E'. reflexivity.
+Qed.
+
+Lemma pa_hx_exp_sem : forall q hc g e n pre post,
+  pa_hexp_src e ->
+  length pre = n -> hc = pre ++ snd (pa_hx_exp n e) ++ post ->
+  pa_heval (fst (pa_hx_exp n e)) (pa_post_row q (pa_base_row q hc g)) = pa_hsem_exp (pq_items q) e g.
+Proof.
+  intros q hc g. induction e as [c|c|x|o x IHx y IHy]; intros n pre post Hsrc Hlen Hhc; simpl in *.
+  - destruct c as [j|i|k|k|k]; try contradiction.
+    + rewrite pa_lookup_group_row. reflexivity.
+    + destruct (nth_error (pq_items q) i) as [p|] eqn:Ei.
+      * rewrite (pa_postagg_value q hc g i p Ei). destruct (pa_sem p (snd g)); reflexivity.
+      * destruct (pa_lookup (PaItem i) (pa_post_row q (pa_base_row q hc g))) as [v|] eqn:El; [|reflexivity].
+        exfalso. apply pa_lookup_some_in in El. unfold pa_post_row in El. apply pa_delete_in in El.
+        destruct El as [_ El]. apply nth_error_None in Ei.
+        apply in_app_or in El. destruct El as [El|El].
+        -- rewrite pa_base_row_parts in El. repeat (apply in_app_or in El; destruct El as [El|El]).
+           ++ apply pa_part_g_cols in El. destruct El as [? El]. discriminate.
+           ++ apply in_flat_map in El. destruct El as [l [Hl Hin]]. apply pa_enum_in in Hl.
+              destruct Hl as [i' [p [Hn E]]]. subst l. destruct (pa_is_plain p); [|destruct Hin].
+              destruct Hin as [E|[]]. inversion E. subst i.
+              assert (i' < length (pq_items q)) by (apply nth_error_Some; rewrite Hn; discriminate). simpl in *. lia.
+           ++ apply pa_place_cols_cols in El. destruct El as [? El]. discriminate.
+           ++ apply pa_part_h_cols in El. destruct El as [? El]. discriminate.
+        -- apply in_flat_map in El. destruct El as [l [Hl Hin]]. apply pa_enum_in in Hl.
+           destruct Hl as [i' [p [Hn E]]]. subst l. destruct (pa_is_plain p); [destruct Hin|].
+           destruct Hin as [E|[]]. inversion E. subst i.
+           assert (i' < length (pq_items q)) by (apply nth_error_Some; rewrite Hn; discriminate). simpl in *. lia.
+  - rewrite pa_lookup_hidden_row. subst hc. rewrite nth_error_app2 by lia.
+    rewrite Hlen, Nat.sub_diag. reflexivity.
+  - reflexivity.
+  - destruct Hsrc as [Sx Sy].
+    destruct (pa_hx_exp n x) as [x' cx] eqn:Ex.
+    destruct (pa_hx_exp (n + length cx) y) as [y' cy] eqn:Ey. simpl in *.
+    specialize (IHx n pre (cy ++ post) Sx Hlen). rewrite Ex in IHx. simpl in IHx.
+    specialize (IHy (n + length cx) (pre ++ cx) post Sy). rewrite Ey in IHy. simpl in IHy.
+    rewrite IHx, IHy; [reflexivity| | |].
+    + rewrite app_length. lia.
+    + rewrite Hhc. rewrite <- !app_assoc. reflexivity.
+    + rewrite Hhc. rewrite <- !app_assoc. reflexivity.
+Qed.
+
+Lemma pa_hx_pred_sem : forall q hc g p n pre post,
+  pa_hpred_src p ->
+  length pre = n -> hc = pre ++ snd (pa_hx_pred n p) ++ post ->
+  pa_hholds (fst (pa_hx_pred n p)) (pa_post_row q (pa_base_row q hc g)) = pa_hsem (pq_items q) p g.
+Proof.
+  intros q hc g. induction p as [o x y|p IHp r IHr|p IHp r IHr]; intros n pre post Hsrc Hlen Hhc; simpl in *.
+  - destruct Hsrc as [Sx Sy].
+    destruct (pa_hx_exp n x) as [x' cx] eqn:Ex.
+    destruct (pa_hx_exp (n + length cx) y) as [y' cy] eqn:Ey. simpl in *.
+    pose proof (pa_hx_exp_sem q hc g x n pre (cy ++ post) Sx Hlen) as Hx. rewrite Ex in Hx. simpl in Hx.
+    pose proof (pa_hx_exp_sem q hc g y (n + length cx) (pre ++ cx) post Sy) as Hy. rewrite Ey in Hy. simpl in Hy.
+    rewrite Hx, Hy; [reflexivity| | |].
+    + rewrite app_length. lia.
+    + rewrite Hhc. rewrite <- !app_assoc. reflexivity.
+    + rewrite Hhc. rewrite <- !app_assoc. reflexivity.
+  - destruct Hsrc as [Sp Sr].
+    destruct (pa_hx_pred n p) as [p' cp] eqn:Ep.
+    destruct (pa_hx_pred (n + length cp) r) as [r' cr] eqn:Er. simpl in *.
+    pose proof (IHp n pre (cr ++ post) Sp Hlen) as Hp. rewrite Ep in Hp. simpl in Hp.
+    pose proof (IHr (n + length cp) (pre ++ cp) post Sr) as Hr. rewrite Er in Hr. simpl in Hr.
+    rewrite Hp, Hr; [reflexivity| | |].
+    + rewrite app_length. lia.
+    + rewrite Hhc. rewrite <- !app_assoc. reflexivity.
+    + rewrite Hhc. rewrite <- !app_assoc. reflexivity.
+  - destruct Hsrc as [Sp Sr].
+    destruct (pa_hx_pred n p) as [p' cp] eqn:Ep.
+    destruct (pa_hx_pred (n + length cp) r) as [r' cr] eqn:Er. simpl in *.
+    pose proof (IHp n pre (cr ++ post) Sp Hlen) as Hp. rewrite Ep in Hp. simpl in Hp.
+    pose proof (IHr (n + length cp) (pre ++ cp) post Sr) as Hr. rewrite Er in Hr. simpl in Hr.
+    rewrite Hp, Hr; [reflexivity| | |].
+    + rewrite app_length. lia.
+    + rewrite Hhc. rewrite <- !app_assoc. reflexivity.
+    + rewrite Hhc. rewrite <- !app_assoc. reflexivity.
+Qed.
+
+(* the rewritten condition over the result row of a group decides the relational HAVING condition *)
+Theorem pa_having_sem : forall q p p' g,
+  pq_having q = Some p -> pa_hpred_src p -> fst (pa_hx q) = Some p' ->
+  pa_hholds p' (pa_post_row q (pa_base_row q (snd (pa_hx q)) g)) = pa_survives q g.
+Proof.
+  intros q p p' g Hq Hsrc Hp'. unfold pa_survives. rewrite Hq.
+  unfold pa_hx in *. rewrite Hq in *. destruct (pa_hx_pred 0 p) as [p0 cs] eqn:E. simpl in *.
+  inversion Hp'. subst p0.
+  pose proof (pa_hx_pred_sem q cs g p 0 [] [] Hsrc eq_refl) as H. rewrite E in H. simpl in H.
+  apply H. rewrite app_nil_r. reflexivity.
+Qed.
+
+(* ------------------------------------------------------------------ a grouped batch *)
+Fixpoint pa_key_differs (a b : pa_key) : Prop :=
+  match a, b with
+  | x :: a', y :: b' => pa_val_eqb x y = false \/ pa_key_differs a' b'
+  | _, _ => False
+  end.
+
+Lemma pa_key_differs_nth : forall a b, pa_key_differs a b ->
+  exists j, j < length a /\ pa_ov_eqb (nth_error a j) (nth_error b j) = false.
+Proof.
+  induction a as [|x a IH]; destruct b as [|y b]; simpl; intro H; try contradiction.
+  destruct H as [H|H].
+  - exists 0. split; [lia|assumption].
+  - destruct (IH b H) as [j [Hj E]]. exists (S j). split; [lia|assumption].
+Qed.
+
+(* rows of groups with different key tuples differ in a group column: DISTINCT cannot merge them *)
+Theorem pa_batch_rows_differ : forall q gs,
+  Forall (fun g => length (fst g) = pq_ngroup q) gs ->
+  ForallOrdPairs (fun g h => pa_key_differs (fst g) (fst h)) gs ->
+  ForallOrdPairs (pa_group_differs (pq_ngroup q)) (pa_results q gs).
+Proof.
+  intros q gs Hlen Hd. unfold pa_results.
+  induction Hd as [|g gs Hg Hgs IH]; simpl; [constructor|].
+  inversion Hlen as [|? ? Lg Lgs]; subst. constructor; [|apply IH; assumption].
+  rewrite Forall_forall in *. intros r Hr. apply in_map_iff in Hr. destruct Hr as [h [<- Hh]].
+  destruct (pa_key_differs_nth _ _ (Hg h Hh)) as [j [Hj E]].
+  exists j. split; [rewrite <- Lg; assumption|]. rewrite !pa_lookup_group_row. assumption.
+Qed.
